@@ -74,7 +74,7 @@ func ids(n int) []uint16 {
 
 // runAdapters wires adapters synchronously and runs op on every party.
 // quietLimit: how long a key generation / signing run may stay silent before it is given up.
-const quietLimit = 240 * time.Second
+const quietLimit = 120 * time.Second
 
 func runAdapters(scheme string, parties []uint16, thr int, shares map[uint16][]byte, op func(id uint16, a adapter, ctx context.Context) ([]byte, error), phase string, timeout time.Duration) (map[uint16][]byte, map[uint16]error, []capMsg) {
 	inst := map[uint16]adapter{}
